@@ -33,6 +33,9 @@ type schedCase struct {
 	// Delay[i]: request i is sent only after this many stopped calls have been
 	// released (0 or absent: at the start, together with the others)
 	Delay []int `json:"delay,omitempty"`
+	// SameConn: all requests travel on connection 0 (the fid table of one
+	// connection is then shared by requests in flight); else one connection each
+	SameConn bool `json:"same_conn,omitempty"`
 }
 
 // schedThemes: requests that meet on one entry; a case draws most of its
@@ -263,6 +266,12 @@ func runSchedCaseKeep(c schedCase, st *schedStats, keep func(sig string) bool) *
 	answered := make([]bool, len(c.Reqs))
 	nAnswered := 0
 	released := 0
+	conn := func(i int) int {
+		if c.SameConn {
+			return 0
+		}
+		return i
+	}
 	sendDue := func(force bool) {
 		for i, k := range c.Reqs {
 			d := 0
@@ -279,7 +288,7 @@ func runSchedCaseKeep(c schedCase, st *schedStats, keep func(sig string) bool) *
 					nAnswered++
 					continue
 				}
-				ss[i].Send(refcodec.Encode(withTag(schedMsg(k), uint16(100+i))))
+				ss[conn(i)].Send(refcodec.Encode(withTag(schedMsg(k), uint16(100+i))))
 			}
 		}
 	}
@@ -297,21 +306,28 @@ func runSchedCaseKeep(c schedCase, st *schedStats, keep func(sig string) bool) *
 	}
 	poll := func() *fail {
 		for i, s := range ss {
-			if answered[i] {
-				continue
+			if c.SameConn && i > 0 {
+				break
 			}
-			if s.Pending() == 0 {
-				continue
+			for (c.SameConn || !answered[i]) && s.Pending() > 0 {
+				raw, err := s.Recv(20 * time.Millisecond)
+				if err != nil {
+					break
+				}
+				rep, derr := refcodec.DecodeStrict(raw)
+				if derr != nil {
+					return failf("reply-undecodable:scheduled", "request %d (%s): reply %x: %v (%s)", i, c.Reqs[i], raw[:min(len(raw), 40)], derr, desc)
+				}
+				k := i
+				if c.SameConn {
+					k = int(rep.Tag) - 100
+				}
+				if k < 0 || k >= len(answered) || answered[k] {
+					return failf("reply-nobody-asked-for:scheduled", "reply %s matches no unanswered request (%s)", rep, desc)
+				}
+				answered[k] = true
+				nAnswered++
 			}
-			raw, err := s.Recv(20 * time.Millisecond)
-			if err != nil {
-				continue
-			}
-			if _, derr := refcodec.DecodeStrict(raw); derr != nil {
-				return failf("reply-undecodable:scheduled", "request %d (%s): reply %x: %v (%s)", i, c.Reqs[i], raw[:min(len(raw), 40)], derr, desc)
-			}
-			answered[i] = true
-			nAnswered++
 		}
 		return nil
 	}
@@ -325,7 +341,7 @@ func runSchedCaseKeep(c schedCase, st *schedStats, keep func(sig string) bool) *
 				return
 			}
 			for j, s := range ss {
-				if sent[j] && !answered[j] && s.Pending() > 0 {
+				if sent[j] && !answered[j] && ss[conn(j)].Pending() > 0 && (!c.SameConn || s == ss[0]) {
 					return
 				}
 			}
@@ -407,7 +423,7 @@ func runSchedCaseKeep(c schedCase, st *schedStats, keep func(sig string) bool) *
 				continue
 			}
 			fids := []uint64{1, 2, 3, 4, 5, 6, 7, 8, 9, 10}
-			if strings.HasPrefix(c.Reqs[i], "walk-") || strings.HasPrefix(c.Reqs[i], "clone-") {
+			if !c.SameConn && (strings.HasPrefix(c.Reqs[i], "walk-") || strings.HasPrefix(c.Reqs[i], "clone-")) {
 				fids = append(fids, 20) // the fid the request bound
 			}
 			for _, fid := range fids {
@@ -493,6 +509,14 @@ func genSchedCase(rt *rapid.T, themes []string) schedCase {
 	for i := rapid.IntRange(1, 12).Draw(rt, "np"); i > 0; i-- {
 		c.Picks = append(c.Picks, rapid.IntRange(0, 5).Draw(rt, "pick"))
 	}
+	if rapid.IntRange(0, 4).Draw(rt, "sameconn") == 0 {
+		c.SameConn = true
+		for i, k := range c.Reqs {
+			if k == "hangup" {
+				c.Reqs[i] = "clunk-2"
+			}
+		}
+	}
 	return c
 }
 
@@ -570,7 +594,7 @@ func keepC05(sig string) bool {
 
 // keepC06: every request is answered, by a whole frame (C06).
 func keepC06(sig string) bool {
-	return strings.HasPrefix(sig, "request-never-answered") || strings.HasPrefix(sig, "reply-undecodable")
+	return strings.HasPrefix(sig, "request-never-answered") || strings.HasPrefix(sig, "reply-undecodable") || strings.HasPrefix(sig, "reply-nobody-asked-for")
 }
 
 func schedReplay(keep func(string) bool) func(c schedCase) *fail {
